@@ -204,6 +204,18 @@ class SchedulingSolver(BaseModelWithJson):
         elif self.logics is None:
             self._solver = z3.Solver()
             print("\t-> Standard SAT/SMT solver")
+        elif any(
+            isinstance(buffer, NonConcurrentBuffer)
+            for buffer in self.problem.buffers
+        ) and not self.logics.replace("QF_", "").startswith("A"):
+            # the level of a NonConcurrentBuffer is encoded with a z3 array: a solver
+            # built for a logic without arrays ignores these assertions and
+            # returns schedules that violate the buffer levels
+            warnings.warn(
+                f"logics {self.logics} does not cover the arrays used for NonConcurrentBuffer, using the standard solver."
+            )
+            self._solver = z3.Solver()
+            print("\t-> Standard SAT/SMT solver")
         else:
             self._solver = z3.SolverFor(self.logics)
             print("\t-> SMT solver using logics", self.logics)
